@@ -289,7 +289,7 @@ fn run_sync(case: &Value, client: UnixStream) -> (Vec<Value>, Vec<i32>, String) 
                 let ad = adapters_of(&st["adapters"]);
                 match conn.streaming_search_with(ad, &s(&st["base"]), scope_of(&st["scope"]), &s(&st["filter"]), attrs) {
                     Err(e) => json!({"err": err_kind(&e)}),
-                    Ok(mut es) => {
+                    Ok(es) => {
                         out.push(json!({"do": name, "r": {"ok": null}}));
                         i += 1;
                         let mut es_opt = Some(es);
